@@ -160,7 +160,8 @@ def run(chk):
         chk.corr_result('plan_join', len(cases), diverged, first, dist)
         # live-variant pin: on the cases that tell the two variants apart the implementation follows the repaired one
         chk.oblige('pin:add_plan_step-variant-repaired', 'correspondence',
-                   len(differ) > 0 and len(as_repaired) == len(differ),
+                   # (a case where the implementation equals neither variant is a divergence of corr:plan_join, not of this pin)
+                   len(differ) > 0 and len(as_repaired) > 0 and len(as_unrepaired) == 0,
                    'variants differ on %d cases; implementation like repaired on %d, like unrepaired on %d%s' % (
                        len(differ), len(as_repaired), len(as_unrepaired),
                        '' if not as_unrepaired else '; e.g. %s' % json.dumps(dict(sql=as_unrepaired[0][0]['sql'],
